@@ -1050,23 +1050,29 @@ func (c *Client) RemoveAll(path string) error {
 		// Delete files recursively in the directory
 		files, err := c.ReadDir(path)
 		if err != nil {
+			// Like os.RemoveAll: a directory that cannot be listed can still be removed if it is empty.
+			if c.RemoveDirectory(path) == nil {
+				return nil
+			}
 			return err
 		}
 
+		// Like os.RemoveAll: remove everything that can be removed, and return the first error encountered.
+		var firstErr error
 		for _, file := range files {
 			if file.IsDir() {
 				// Recursively delete subdirectories
 				err = c.RemoveAll(path + "/" + file.Name())
-				if err != nil {
-					return err
-				}
 			} else {
 				// Delete individual files
 				err = c.Remove(path + "/" + file.Name())
-				if err != nil {
-					return err
-				}
 			}
+			if err != nil && firstErr == nil {
+				firstErr = err
+			}
+		}
+		if firstErr != nil {
+			return firstErr
 		}
 
 	}
